@@ -25,7 +25,8 @@ def one_trace(rng, tid, prop):
             rec.do("from_roots", [roots], keep=False)
         elif c < 0.5:
             shape = rng.choice([(2,), (2, 2), (2, 3), (1, 2, 2)])
-            a = rec.new(build_poly(gen.rand_poly_spec(rng, shape=shape, names=(0, 1), kind="int", max_terms=2, max_exp=2, min_terms=1)))
+            a = rec.new(build_poly(gen.rand_poly_spec(rng, shape=shape, names=rng.choice([(0, 1), (1, 3), (2,)]), kind="int",
+                                                      max_terms=2, max_exp=2, min_terms=1)))
             rec.do("apply_along_axis", [a], keep=False, fn=rng.choice(["sum", "prod"]), axis=rng.randrange(-len(shape), len(shape)),
                    spelling=rng.choice(["numpoly", "numpy"]))
         elif c < 0.75:
